@@ -316,7 +316,10 @@ def check_c02(run: Run, prog: Program) -> None:
         "returned (validate before use); in the collection case the mask passed is the tested array; nothing inside the entry points' "
         "own call tree intercepts the error; the tolerance of a zero test in that call tree does not depend on a whole-array reduction (which "
         "would make the verdict for one position of a collection depend on the others); and (E14.id) join/meet issue the same contraction whether the "
-        "caller passes one object twice or two equal objects (tensor diagrams identify nodes by identity). NOT decided: 'exactly when' - the tolerance arithmetic of is_zero and the condition itself."
+        "caller passes one object twice or two equal objects (tensor diagrams identify nodes by identity); and (E19.join, degenerate part) the condition itself for symbolic "
+        "arguments: _join_meet_duality, interpreted as under C01, raises LinearDependenceError when the contraction vanishes identically - a point or a line with itself, three "
+        "collinear points, three planes of one pencil, a line with a point on it - and NotCoplanar for two skew lines of 3-space (meet and join), while arguments in general "
+        "position do not raise (C01). NOT decided: the tolerance arithmetic of is_zero (how close to dependent is dependent) and the dependent_values mask of collections."
     )
     entries = ["join", "meet", "PointTensor.join", "SubspaceTensor.meet", "SubspaceTensor.join", "LineTensor.__init__", "PlaneTensor.__init__"]
     s1 = _error_rules(run, prog, "LinearDependenceError", entries, payload=True)
@@ -338,6 +341,11 @@ def check_c02(run: Run, prog: Program) -> None:
     from geolint import diagram
 
     run.stats["operand_identity_scenarios"] = diagram.rule_alias(run, prog)
+    # the condition itself, for symbolic arguments: a contraction that vanishes identically raises the documented error, skew lines raise NotCoplanar
+    from geolint import quadforms
+
+    nd = quadforms.rule_join_meet(run, prog, part="degenerate")
+    run.floor("degenerate configurations read (found, decided or not)", nd, 5)
 
 
 # ================================================================================================ C11
